@@ -268,18 +268,18 @@ def build_schedules(ctx, quick):
                ("sock_raw", "ABCI_sock", "ABCI_sock_raw.cfg"), ("sock_raw_q1", "ABCI_sock", "ABCI_sock_raw_q1.cfg"),
                ("sock_raw_stop", "ABCI_sock", "ABCI_sock_raw_stop.cfg"),
                ("proxy", "ABCI_proxy", "ABCI_proxy.cfg"), ("local", "ABCI_local", "ABCI_local.cfg")]
-    jobs = [(k, dict(module=m, cfg=c, must_pass=True, timeout=600 if quick else 3000, workers=2 if quick else W,
+    jobs = [(k, dict(module=m, cfg=c, must_pass=True, timeout=600 if quick else 3000, workers=(2 if k == "sock_honest" else 1) if quick else W,
                      heap="3g" if quick else "6g", label=k)) for k, m, c in exh]
     weak = []
     for w in SOCK_WEAK:
-        weak.append(("weak_" + w, dict(module="ABCI_sock", cfg="ABCI_weak_%s.cfg" % w, timeout=600, workers=2, label="weak_" + w)))
+        weak.append(("weak_" + w, dict(module="ABCI_sock", cfg="ABCI_weak_%s.cfg" % w, timeout=600, workers=1, label="weak_" + w)))
     for w in LOCAL_WEAK:
-        weak.append(("weak_" + w, dict(module="ABCI_local", cfg="ABCI_weak_%s.cfg" % w, timeout=600, workers=2, label="weak_" + w)))
+        weak.append(("weak_" + w, dict(module="ABCI_local", cfg="ABCI_weak_%s.cfg" % w, timeout=600, workers=1, label="weak_" + w)))
     for w in PROXY_WEAK:
         weak.append(("weak_" + w, dict(module="ABCI_proxy", cfg="ABCI_weak_%s.cfg" % w, timeout=300, workers=1, label="weak_" + w)))
     for inv in ("NoPanic", "NoStuckWaiter", "NoStuckEnqueuer"):     # the code as it is: TLC must find the three defects
         cfg = core.cfg_variant(ctx, "ABCI_asis.cfg", "ABCI_asis_%s.cfg" % inv, {}, invariants=[inv])
-        weak.append(("asis_" + inv, dict(module="ABCI_sock", cfg=cfg, timeout=900, workers=2, label="asis_" + inv)))
+        weak.append(("asis_" + inv, dict(module="ABCI_sock", cfg=cfg, timeout=900, workers=1, label="asis_" + inv)))
     # --- replay material
     nsim = 60 if quick else 400
     simp = os.path.join(sp, "abcisim")
@@ -313,7 +313,8 @@ def build_schedules(ctx, quick):
     lib = os.path.join(ctx.verif, "spec", "attacks", "ABCI", "library.json")
     use_lib = quick and os.path.exists(lib)
     alljobs = jobs + weak + ([] if use_lib else att)
-    res = tlc_jobs(ctx, alljobs, par=max(1, ctx.cores // 2) if quick else max(1, ctx.cores // W))
+    # quick: many small jobs (JVM start dominates) - one per core; thorough: the big ones first, W workers each
+    res = tlc_jobs(ctx, alljobs, par=max(2, min(ctx.cores, 6)) if quick else max(1, ctx.cores // W))
     # non-vacuity
     nonvac = {}
     for w in SOCK_WEAK:
